@@ -129,6 +129,28 @@ def long_error_spans():
     return L
 
 
+def nesting_programs():
+    """well-typed texts whose bracket nesting grows to 64, every level mixing operands of different shapes (an empty
+    literal next to a full one, none() next to some(..)): compilation stays a terminating function of the text"""
+    def nest(d, op, cl, leaf):
+        s = leaf
+        for _ in range(d):
+            s = op + s + cl
+        return s
+    L = []
+    for d in (8, 16, 24, 32, 40, 48, 56, 64):
+        L.append("let r = %s;\n" % nest(d, "[[], ", "]", "[1]"))
+        L.append("let r = %s;\n" % nest(d, "[", ", []]", "[1]"))
+        L.append("let r = %s;\n" % nest(d, "[none(), some(", ")]", "[some(1)]"))
+        L.append("let r = %s;\n" % nest(d, "(1, ", ")", "2"))
+        L.append("fn f(x: int)->int { x + 1 }\nlet r = %s;\n" % nest(d, "f(", ")", "0"))
+        L.append("let r = %s;\n" % nest(d, "if(true, ", ", 0)", "1"))
+        L.append("let r = %s;\n" % nest(d, "(() -> {", "})()", "1"))
+        L.append("let r = %s;\n" % nest(d, "[[1.0].map((x: float) -> {x.floor()}).to_array().len(), ", "].len()", "1"))
+        L.append("let r = %s;\n" % nest(d, "[stack(), stack().push(", ")].get(1)", "1"))
+    return L
+
+
 def run(chk, tier, seed):
     rnd = random.Random(seed)
     n_soup, n_mut = (1500, 1200) if tier == "quick" else (8000, 6000)
@@ -140,7 +162,7 @@ def run(chk, tier, seed):
     base = [s["src"] for s in corpus.scripts()] + [b["src"] for b in corpus.book_blocks()]
     for _ in range(n_mut):
         texts.append(mutate(rnd, rnd.choice(base), base))
-    texts += literal_spellings() + construct_spellings() + operator_programs()
+    texts += literal_spellings() + construct_spellings() + operator_programs() + nesting_programs()
     spans = long_error_spans()
     texts += spans if tier == "thorough" else spans[seed % 3::3]
     texts += base
